@@ -63,6 +63,8 @@ def candidates(mod, case):
 
 def minimise(pool, mod, case, key, viol, digest, budget=600):
     best, bviol, bdigest = case, viol, digest
+    kc = getattr(mod, "key_class", lambda k: k)
+    cls = kc(key)
     spent = 0
     improved = True
     while improved and spent < budget:
@@ -88,7 +90,7 @@ def minimise(pool, mod, case, key, viol, digest, budget=600):
                 if "harness_error" in r:
                     continue
                 for v in r["violations"]:
-                    if v["key"] == key:
+                    if kc(v["key"]) == cls:
                         if size(c) < bs or (size(c) == bs and c != best and getattr(mod, "simpler", lambda a, b: False)(c, best)):
                             hit = (c, v, r["digest"])
                         break
